@@ -34,6 +34,13 @@ def with_timeout(fn, secs):
 def main():
     kind = sys.argv[1]
     cases = json.loads(sys.stdin.read())
+    # a runaway computation in C code (which no signal handler interrupts) must end in MemoryError, not in the OOM killer
+    try:
+        import resource
+        lim = int(os.environ.get("WTPVERIF_AS_LIMIT_GB", "12")) << 30
+        resource.setrlimit(resource.RLIMIT_AS, (lim, lim))
+    except Exception:  # noqa
+        pass
     import implfns
     fn = getattr(implfns, "impl_" + kind)
     scratch = tempfile.mkdtemp(prefix="wtpverif_")
